@@ -104,7 +104,14 @@ pub async fn accept_loop<F>(
     loop {
         #[cfg(feature = "verif_hooks")]
         crate::verif::emit("AccWait", 0, 0);
-        let token = token_set.async_wait_token().await;
+        let Some(token) = FutureExt::or(async { Some(token_set.async_wait_token().await) }, async {
+            (&mut permit).await;
+            None
+        })
+        .await
+        else {
+            return;
+        };
         if permit.is_revoked() {
             #[cfg(feature = "verif_hooks")]
             crate::verif::emit("AccRevokedExit", 0, 0);
